@@ -414,10 +414,12 @@ def _task(arg):
         return {'error': str(e)[:300], 'items': [], 'nodes': 0, 'accepted': 0, 'refusals': 0, 'ends': 0}
 
 
-def run(chk, pid: str):
-    """Adds the findings of the exploration that belong to property `pid` (C01 / C02 / C03) to the check."""
-    repo = chk.repo
-    quick = chk.tier == 'quick'
+_RESULTS: dict = {}
+
+
+def _explore(repo, tier: str, pid: str):
+    """One exploration per process, repository and tier (the three properties and the checks that rest on them share it)."""
+    quick = tier == 'quick'
     tasks = []
     d0, w0 = (6, 2) if quick else (8, 3)
     # the tree from the empty auction is split at depth 2 into independent subtrees (one worker each)
@@ -457,6 +459,15 @@ def run(chk, pid: str):
                 items.append(it)
         for k in tot:
             tot[k] += r[k]
+    return items, tot
+
+
+def run(chk, pid: str):
+    """Adds the findings of the exploration that belong to property `pid` (C01 / C02 / C03) to the check."""
+    key = (chk.repo.root, chk.tier)
+    if key not in _RESULTS:
+        _RESULTS[key] = _explore(chk.repo, chk.tier, pid)
+    items, tot = _RESULTS[key]
     chk.evals(tot['nodes'])
 
     class ex:       # totals, for the evidence text
@@ -465,6 +476,7 @@ def run(chk, pid: str):
     class sink:
         pass
     sink.items = items
+    quick = chk.tier == 'quick'
     rules = {'C01': 'C01.R9', 'C02': 'C02.R5', 'C03': 'C03.R4'}
     mine = rules[pid]
     n = 0
